@@ -611,7 +611,7 @@ func (e *enc) trCall(n *ECall, env *Env) Val {
 		if id, ok := n.Args[0].(*EIdent); ok {
 			for _, p := range e.v.pkgs {
 				if g, ok := p.Members[id.Name].(*ssaGlobal); ok {
-					return Val{T: fmt.Sprint(e.v.globalID(e.globalName(g))), S: "Int"}
+					return Val{T: smtInt(fmt.Sprint(e.v.globalID(e.globalName(g)))), S: "Int"}
 				}
 			}
 		}
